@@ -612,6 +612,8 @@ pub fn c19_check_nonstring(js: &str) -> Vec<Fail> {
             ("i64", guard(|| LanguageIdentifier::deserialize(I64Deserializer::<VErr>::new(-1)))),
             ("f64", guard(|| LanguageIdentifier::deserialize(F64Deserializer::<VErr>::new(1.5)))),
             ("seq of str", guard(|| LanguageIdentifier::deserialize(SeqDeserializer::<_, VErr>::new(vec!["en", "US"].into_iter())))),
+            ("seq of u8 spelling en-US", guard(|| LanguageIdentifier::deserialize(SeqDeserializer::<_, VErr>::new(b"en-US".to_vec().into_iter())))),
+            ("seq of char spelling en", guard(|| LanguageIdentifier::deserialize(SeqDeserializer::<_, VErr>::new(vec!['e', 'n'].into_iter())))),
             ("map", guard(|| LanguageIdentifier::deserialize(MapDeserializer::<_, VErr>::new(vec![("language", "en")].into_iter())))),
         ];
         for (name, r) in rs {
